@@ -77,9 +77,10 @@ def run(ctx):
         # decode: ordered script
         scr, evs, ret = A.fn_script(ctx, U + 'decode')
         site = ctx.site(U + 'decode')
+        # every step carries its whole guard context and sets its own field, so the steps are compared as a set:
+        # which branch of an if/else is written first is not behaviour
         for i, want in enumerate(DECODE_SCRIPT):
-            got = scr[i] if i < len(scr) else None
-            r.eq('decode:step%d' % i, got, want, site)
+            r.check('decode:step%d' % i, want in scr, site, built=[l for l in scr if l not in DECODE_SCRIPT][:3], expected=want)
         r.eq('decode:step-count', len(scr), len(DECODE_SCRIPT), site, why='no other effect on the options')
         r.eq('decode:result', S.show(ret), 'Ok($m0)', site)
         snaps = [S.show(e.term) for e in evs if e.kind == 'snapshot' and S.show(e.lhs) == '$m0']
